@@ -509,7 +509,7 @@ func c06API(c exprCase, want model.Outcome) *failure {
 	return nil
 }
 
-const ruleC06 = "rapid: (condition AST, item, bindings) - ASTs up to depth 6 over comparators, BETWEEN, IN, AND/OR/NOT, parentheses, document paths (nested members, list elements, elements past the end, missing parents), #name/:value placeholders and the six functions; operands drawn from an item holding (most of) the ten types so that ~half of the atoms are well typed and present, the rest type mismatches, absences, NULL-typed attributes; rendered with random extra whitespace. In an eighth of the cases a twin that differs only in the letter case of one identifier, in another eighth the same text with values of the same shape and other contents, in another eighth an expression that is rejected on another, richer item, is evaluated first on the same interpreter instance. Oracle: the reference evaluator's outcome set vs interpreter.Language.Match called directly; plus purity of item and bindings, commutation of AND/OR operands, and for a tenth of the cases the same condition as Scan filter and PutItem condition through both SDK clients. Non-trivial = >= 2 atoms and a singleton model outcome that flips when the item is replaced by the empty item; distinct = hash of (expression, item, bindings)."
+const ruleC06 = "rapid: (condition AST, item, bindings) - ASTs up to depth 6 over comparators, BETWEEN, IN, AND/OR/NOT, parentheses, document paths (nested members, list elements, elements past the end, missing parents), #name/:value placeholders and the six functions; operands drawn from an item holding (most of) the ten types so that ~half of the atoms are well typed and present, the rest type mismatches, absences, NULL-typed attributes; rendered with random extra whitespace. In an eighth of the cases a twin that differs only in the letter case of one identifier, in another eighth the same text with values of the same shape and other contents, in another eighth an expression that is rejected on another, richer item, is evaluated first on the same interpreter instance. Oracle: the reference evaluator's outcome set vs interpreter.Language.Match called directly; plus purity of item and bindings, commutation of AND/OR operands, and for a tenth of the cases the same condition as Scan filter and PutItem condition through both SDK clients. One case in 64 in flood mode (the expression itself, then 64-130 other texts, then the compared evaluation, on one interpreter instance); operands include set twins (same size, one member differs) and one attribute compared twice. Non-trivial = >= 2 atoms and a singleton model outcome that flips when the item is replaced by the empty item; distinct = hash of (expression, item, bindings)."
 
 // TestC06 decides property C06.
 func TestC06(t *testing.T) {
@@ -815,7 +815,7 @@ func c07API(c exprCase, res model.UpdateResult) *failure {
 	return nil
 }
 
-const ruleC07 = "rapid: (update AST, item or absent item, bindings) - 1-4 clauses (SET with values, paths, + and -, if_not_exists, list_append; REMOVE of attributes, map members and list elements; ADD to numbers and sets; DELETE from sets) with 1-4 actions over non-overlapping targets, on items holding nested documents, lists and sets plus untargeted attributes of every type. In an eighth of the cases a twin that differs only in the letter case of one identifier is applied first (to a copy of the item) on the same interpreter instance. Oracle: the reference update semantics vs interpreter.Language.Update called directly - success/rejection, and on success equality of the entire item (targeted values, removed attributes gone, every other attribute unchanged by value); on rejection the item is unchanged; for a tenth of the cases also UpdateItem (half of them with an explicit ReturnValues parameter, a quarter with the client's debug mode on) + GetItem through both SDK clients, on an existing item and on an absent key. Non-trivial = >= 2 actions or a nested / list target; distinct = hash of (expression, item, bindings)."
+const ruleC07 = "rapid: (update AST, item or absent item, bindings) - 1-4 clauses (SET with values, paths, + and -, if_not_exists, list_append; REMOVE of attributes, map members and list elements; ADD to numbers and sets; DELETE from sets) with 1-4 actions over non-overlapping targets, on items holding nested documents, lists and sets plus untargeted attributes of every type. In an eighth of the cases a twin that differs only in the letter case of one identifier is applied first (to a copy of the item) on the same interpreter instance. Oracle: the reference update semantics vs interpreter.Language.Update called directly - success/rejection, and on success equality of the entire item (targeted values, removed attributes gone, every other attribute unchanged by value); on rejection the item is unchanged; for a tenth of the cases also UpdateItem (half of them with an explicit ReturnValues parameter, a quarter with the client's debug mode on) + GetItem through both SDK clients, on an existing item and on an absent key. One case in 64 in flood mode as in C06; one in twelve also removes a list element and sets a later element of the same list; absent attributes with dotted names that would lead into a map the item holds (REMOVE-only uses pass the F-ALIASDOT guard). Non-trivial = >= 2 actions or a nested / list target; distinct = hash of (expression, item, bindings)."
 
 // TestC07 decides property C07.
 func TestC07(t *testing.T) {
